@@ -192,6 +192,9 @@ func fromGoD(x stick.Value, depth int) JV {
 	case string:
 		return strJV(v)
 	case stick.SafeValue:
+		if rv := reflect.ValueOf(x); rv.Kind() == reflect.Ptr && rv.IsNil() {
+			return JV{T: "go", GoT: fmt.Sprintf("nil %T", x)}
+		}
 		in := fromGoD(v.Value(), depth+1)
 		ts := v.SafeFor()
 		sort.Strings(ts)
